@@ -179,27 +179,31 @@ type inst interface {
 
 type mapInst struct{ m ads.Map[root, key, val] }
 
-func (i mapInst) put(k key, v val) error            { return i.m.Set(k, v) }
-func (i mapInst) get(k key) (val, bool, error)      { return i.m.Get(k) }
-func (i mapInst) has(k key) (bool, error)           { return i.m.Has(k) }
-func (i mapInst) del(k key) (bool, error)           { return i.m.Delete(k) }
-func (i mapInst) commit() error                     { return i.m.Commit() }
-func (i mapInst) root() root                        { return i.m.Root() }
-func (i mapInst) size() int                         { return i.m.Size() }
-func (i mapInst) restored() bool                    { return i.m.WasRestoredFromStorage() }
-func (i mapInst) stream(f func(k key, v val)) error { return i.m.Stream(func(k key, v val) error { f(k, v); return nil }) }
+func (i mapInst) put(k key, v val) error       { return i.m.Set(k, v) }
+func (i mapInst) get(k key) (val, bool, error) { return i.m.Get(k) }
+func (i mapInst) has(k key) (bool, error)      { return i.m.Has(k) }
+func (i mapInst) del(k key) (bool, error)      { return i.m.Delete(k) }
+func (i mapInst) commit() error                { return i.m.Commit() }
+func (i mapInst) root() root                   { return i.m.Root() }
+func (i mapInst) size() int                    { return i.m.Size() }
+func (i mapInst) restored() bool               { return i.m.WasRestoredFromStorage() }
+func (i mapInst) stream(f func(k key, v val)) error {
+	return i.m.Stream(func(k key, v val) error { f(k, v); return nil })
+}
 
 type setInst struct{ m ads.Set[root, key] }
 
-func (i setInst) put(k key, _ val) error            { return i.m.Add(k) }
-func (i setInst) get(k key) (val, bool, error)      { h, err := i.m.Has(k); return "", h, err }
-func (i setInst) has(k key) (bool, error)           { return i.m.Has(k) }
-func (i setInst) del(k key) (bool, error)           { return i.m.Delete(k) }
-func (i setInst) commit() error                     { return i.m.Commit() }
-func (i setInst) root() root                        { return i.m.Root() }
-func (i setInst) size() int                         { return i.m.Size() }
-func (i setInst) restored() bool                    { return i.m.WasRestoredFromStorage() }
-func (i setInst) stream(f func(k key, v val)) error { return i.m.Stream(func(k key) error { f(k, ""); return nil }) }
+func (i setInst) put(k key, _ val) error       { return i.m.Add(k) }
+func (i setInst) get(k key) (val, bool, error) { h, err := i.m.Has(k); return "", h, err }
+func (i setInst) has(k key) (bool, error)      { return i.m.Has(k) }
+func (i setInst) del(k key) (bool, error)      { return i.m.Delete(k) }
+func (i setInst) commit() error                { return i.m.Commit() }
+func (i setInst) root() root                   { return i.m.Root() }
+func (i setInst) size() int                    { return i.m.Size() }
+func (i setInst) restored() bool               { return i.m.WasRestoredFromStorage() }
+func (i setInst) stream(f func(k key, v val)) error {
+	return i.m.Stream(func(k key) error { f(k, ""); return nil })
+}
 
 type flavour struct {
 	name   string
